@@ -362,6 +362,12 @@ func (x *Exec) runFunc(fn *ssa.Function, args []Value, bind []Value, st State, t
 		fr.rpoIdx[b] = i
 	}
 	in := st.clone()
+	if top {
+		// ghost iteration counters exist (as 0) before their loops are reached
+		for _, li := range fr.loops {
+			in.names[fmt.Sprintf("#count%d", li.ordinal)] = Sc{T: lit(64, 0), Signed: true}
+		}
+	}
 	if !top {
 		// callee gets its own value environment and names, and an empty defer stack
 		in.env = map[ssa.Value]Value{}
@@ -520,6 +526,8 @@ func (x *Exec) runLoop(fr *frame, li *loopInfo, inc []edge) []edge {
 	loopName := fmt.Sprintf("%s#loop%d", fr.name, li.ordinal)
 	// 1. entry state with phis evaluated
 	sin := x.enterBlock(fr, h, inc)
+	cntName := fmt.Sprintf("#count%d", li.ordinal)
+	sin.names[cntName] = Sc{T: lit(64, 0), Signed: true}
 	pre := sin.clone()
 	fr.preLoop[li] = &pre
 	if fr.fc != nil {
@@ -549,6 +557,12 @@ func (x *Exec) runLoop(fr *frame, li *loopInfo, inc []edge) []edge {
 		}
 	}
 	x.havocLoopMemory(fr, li, lc, &hs)
+	{
+		// ghost iteration counter: arbitrary non-negative at the head, one more along every back edge
+		k := x.vc.fresh("Lcount", bvSort(64))
+		x.vc.assume(mkAnd(bvcmp("bvsle", lit(64, 0), k), bvcmp("bvslt", k, lit(64, 1<<62))), "loop iteration counter is non-negative")
+		hs.names[cntName] = Sc{T: k, Signed: true}
+	}
 	for _, inv := range lc.Invariants {
 		g := x.evalBoolClause(fr, &hs, inv, x.loopOpts(fr, &pre))
 		x.vc.assume(mkImplies(hs.reach, g), "loop invariant "+loopName)
@@ -590,6 +604,9 @@ func (x *Exec) runLoop(fr *frame, li *loopInfo, inc []edge) []edge {
 				if phi.Comment != "" {
 					s.names[phi.Comment] = v
 				}
+			}
+			if cv, ok := hs.names[cntName].(Sc); ok {
+				s.names[cntName] = Sc{T: bvbin("bvadd", cv.T, lit(64, 1)), Signed: true}
 			}
 			if len(lc.Modifies) > 0 || lc.ModNothing {
 				x.loopFrameObligations(fr, &hs, &s, lc, x.loopOpts(fr, &pre), loopName, e.from.Index)
